@@ -57,31 +57,40 @@ fn parse_list(t: &[&str], pos: &mut usize) -> Option<Vec<Node>> {
     Some(out)
 }
 
-pub fn exec_nodes(hs: &HashMap<String, H>, w: &Wa, nodes: &[Node], tr: &RefCell<Vec<String>>) {
+/// `ev` is an implementation-side event log for the C11 oracle (not compared with the model):
+/// `A <node>` an access is attempted, `+<args>` it was granted and its body starts, `X` the
+/// node is left.  After a panic the log simply stops.
+pub fn exec_nodes(hs: &HashMap<String, H>, w: &Wa, nodes: &[Node], tr: &RefCell<Vec<String>>, ev: &RefCell<Vec<String>>) {
     for n in nodes {
         match n {
             Node::Bs { a, col, m, kids } => {
+                ev.borrow_mut().push(format!("A bs:{}:{}:{}", a, col, if *m { "m" } else { "s" }));
                 crate::dispatch!(*a, A => {
                     <A as ArchX>::with_borrow_slice(<A as ArchX>::of(w), *col, *m, &mut || {
                         tr.borrow_mut().push("bs+".to_string());
-                        exec_nodes(hs, w, kids, tr);
+                        ev.borrow_mut().push("+".to_string());
+                        exec_nodes(hs, w, kids, tr, ev);
                     })
                 });
+                ev.borrow_mut().push("X".to_string());
             }
             Node::Bc { a, var, col, m, kids } => {
                 let any = match hs.get(var) {
                     Some(H::Ent { any, .. }) => Some(*any),
                     _ => None,
                 };
+                ev.borrow_mut().push(format!("A bc:{}:{}:{}:{}", a, var, col, if *m { "m" } else { "s" }));
                 crate::dispatch!(*a, A => {
                     match any.and_then(|k| <A as ArchX>::of(w).borrow(k)) {
                         Some(b) => <A as ArchX>::with_borrow_comp(&b, *col, *m, &mut || {
                             tr.borrow_mut().push("bc+".to_string());
-                            exec_nodes(hs, w, kids, tr);
+                            ev.borrow_mut().push("+".to_string());
+                            exec_nodes(hs, w, kids, tr, ev);
                         }),
                         None => tr.borrow_mut().push("bc-".to_string()),
                     }
                 });
+                ev.borrow_mut().push("X".to_string());
             }
             Node::Fb { q, var, kids } => {
                 let any = match hs.get(var) {
@@ -89,11 +98,13 @@ pub fn exec_nodes(hs: &HashMap<String, H>, w: &Wa, nodes: &[Node], tr: &RefCell<
                     _ => None,
                 };
                 let mut ran = false;
+                ev.borrow_mut().push(format!("A fb:q{}:{}", q, var));
                 if let Some(k) = any {
-                    let mut hook = || {
+                    let mut hook = |args: &str| {
                         ran = true;
                         tr.borrow_mut().push("fb+".to_string());
-                        exec_nodes(hs, w, kids, tr);
+                        ev.borrow_mut().push(format!("+{}", args));
+                        exec_nodes(hs, w, kids, tr, ev);
                     };
                     let mut cx = Ctx::default();
                     cx.hook = Some(&mut hook);
@@ -102,20 +113,27 @@ pub fn exec_nodes(hs: &HashMap<String, H>, w: &Wa, nodes: &[Node], tr: &RefCell<
                 if !ran {
                     tr.borrow_mut().push("fb-".to_string());
                 }
+                ev.borrow_mut().push("X".to_string());
             }
             Node::Ib { q, kids } => {
-                let mut hook = || {
+                ev.borrow_mut().push(format!("A ib:q{}", q));
+                let mut hook = |args: &str| {
                     tr.borrow_mut().push("ib+".to_string());
-                    exec_nodes(hs, w, kids, tr);
+                    ev.borrow_mut().push(format!("+{}", args));
+                    exec_nodes(hs, w, kids, tr, ev);
+                    ev.borrow_mut().push("-".to_string());
                 };
                 let mut cx = Ctx::default();
                 cx.hook = Some(&mut hook);
                 (MENU[*q].iterb)(w, &mut cx);
+                ev.borrow_mut().push("X".to_string());
             }
             Node::Cl => {
+                ev.borrow_mut().push("A cl".to_string());
                 let c = w.clone();
                 tr.borrow_mut().push("cl+".to_string());
                 drop(c);
+                ev.borrow_mut().push("X".to_string());
             }
         }
     }
